@@ -453,12 +453,10 @@ func (vm valueModel) typeDecl(expr hclsyntax.Expression, depth int) (ValueTokens
 			}
 			out.Required = append(out.Required, tok("hcl-typeComplex", e.NameRange))
 			for _, it := range oc.Items {
-				ke, ok := it.KeyExpr.(*hclsyntax.ObjectConsKeyExpr)
-				if !ok {
-					return out, false
-				}
-				st, ok := ke.Wrapped.(*hclsyntax.ScopeTraversalExpr)
-				if !ok || len(st.Traversal) != 1 {
+				// a naked or a plainly quoted name: the token covers the key as written (with its
+				// quotes), like every other key token; an empty name ("") is not decided
+				name, ok := rawKey(it)
+				if !ok || name == "" {
 					return out, false
 				}
 				out.Required = append(out.Required, tok("hcl-attrName", it.KeyExpr.Range()))
